@@ -22,7 +22,8 @@ REQS = {
     "close": (b"POST /sync HTTP/1.1\r\nHost: h\r\nConnection: close\r\nContent-Length: 2\r\n\r\nhi", [b"hi"]),
     "http10": (b"POST /sync HTTP/1.0\r\nContent-Length: 2\r\n\r\nhi", [b"hi"]),
 }
-MODES = ["raw-sync", "raw-reqtimeout", "raw-async0", "raw-gated-headers", "raw-gated-data", "raw-respond-later", "raw-never",
+RAISING = ("raw-finish-raises", "raw-headers-raise", "raw-headers-fail-async")
+MODES = ["raw-finish-raises", "raw-headers-raise", "raw-headers-fail-async", "raw-sync", "raw-reqtimeout", "raw-async0", "raw-gated-headers", "raw-gated-data", "raw-respond-later", "raw-never",
          "app-sync", "app-async", "app-stream", "app-stream-async", "app-early-error", "app-early-finish"]
 FAULTS = ["eof", "reset", "silence", "none"]
 
@@ -78,6 +79,12 @@ def make_server_delegate(mode, rec):
             self.conn = conn
 
         def headers_received(self, start_line, headers):
+            if mode == "raw-headers-raise":
+                raise RuntimeError("application bug in headers_received")
+            if mode == "raw-headers-fail-async":
+                f = asyncio.Future()
+                f.set_exception(RuntimeError("lookup failed"))
+                return f
             if mode == "raw-reqtimeout":
                 self.conn.set_body_timeout(5)       # per-request timeout on a server without a global one
             if mode == "raw-async0":
@@ -96,6 +103,8 @@ def make_server_delegate(mode, rec):
                 return f
 
         def finish(self):
+            if mode == "raw-finish-raises":
+                raise RuntimeError("application bug in finish")
             if mode == "raw-never":
                 return
             if mode == "raw-respond-later":
@@ -124,6 +133,7 @@ def make_server_delegate(mode, rec):
 
         def on_connection_close(self):
             rec.handler_events.append(("on_connection_close", id(self)))
+            super().on_connection_close()
 
     class Async(Sync):
         async def go(self):
@@ -284,10 +294,20 @@ def judge(reqname, mode, k, fault, o, notes=None):
         bad.append(("connections-left", "%d connections still registered" % o["leftover"]))
     if not o["closed"]:
         bad.append(("socket-open-after-shutdown", "fd still open after close_all_connections"))
+    if mode in ("app-stream", "app-stream-async", "app-early-error", "app-early-finish"):
+        # a streaming handler exists from the headers on: when its delegate is told that the connection closed, so is
+        # the handler (that is what releases a coroutine waiting for the rest of the body) - also if it answered early
+        nclose_d = sum(1 for ev in o["events"] for e in ev if e[0] == "close")
+        nclose_h = sum(1 for e in o["handler"] if e[0] == "on_connection_close")
+        if nclose_h < nclose_d:
+            bad.append(("handler-not-told-of-close", "delegates were told of a close %d times, handlers %d times (handler events %r)"
+                        % (nclose_d, nclose_h, [e[0] for e in o["handler"]])))
     hk = [e for e in o["handler"] if e[0] in ("on_finish", "on_connection_close")]
     if len(set(hk)) != len(hk):
         bad.append(("handler-notified-twice", "handler events %r" % hk))
     for l in o["logs"]:
+        if mode in RAISING and l[3] == "RuntimeError":
+            continue            # the application's own exception is logged, as it should be
         bad.append(("error-log:%s" % (l[3] or l[2][:24]), "log %r" % (l,)))
         break
     if o["loop_errors"]:
